@@ -203,7 +203,7 @@ func worker() {
 	lim := syscall.Rlimit{Cur: workerMemLimit, Max: workerMemLimit}
 	_ = syscall.Setrlimit(syscall.RLIMIT_AS, &lim)
 	debug.SetMemoryLimit(1 << 30)
-	debug.SetMaxStack(512 << 20)
+	debug.SetMaxStack(128 << 20) // runaway recursion dies fast: `fatal error: stack overflow` → crash
 	in := bufio.NewReaderSize(os.Stdin, 1<<20)
 	out := bufio.NewWriterSize(os.Stdout, 1<<16)
 	// warm-up: one-time lazy initialisation inside reflect / encoding/binary / encoding/json
